@@ -28,8 +28,20 @@ From PV Require Import PubSub.Gen_PubSub.
 Import ListNotations.
 
 Ltac unf_py :=
-  unfold py_list_in, py_list_append, py_list_remove, py_list_truth, py_dict_item, py_dict_del, py_dict_keys,
-         py_dict_get, py_dict_truth in *.
+  unfold py_list_in, py_list_append, py_list_remove, py_dict_item, py_dict_del, py_dict_keys, py_dict_get in *.
+
+(* The agreement proofs below do not follow the SHAPE of the generated text (nested ifs, early returns, helper
+   functions inlined, tests written one way or the other): they reduce both sides to the few atomic facts the
+   methods test - is the key in the map, what is stored under it, is the listener in that list, is the list
+   empty after the removal - and decide every combination. *)
+Ltac brk_step :=
+  match goal with
+  | |- context [match ?x with _ => _ end] =>
+    lazymatch x with
+    | context [match _ with _ => _ end] => fail
+    | _ => destruct x eqn:?
+    end
+  end.
 
 (* ====================================================================== *)
 (* Python's dict on the association list                                   *)
@@ -116,6 +128,37 @@ Proof.
     destruct (remove_first l (subscribers r et)); reflexivity.
 Qed.
 
+Lemma lookup_set k v m : lookup k (py_dict_set k v m) = Some v.
+Proof.
+  induction m as [| [k' ls] r IH]; cbn.
+  - rewrite Nat.eqb_refl. reflexivity.
+  - destruct (Nat.eqb k' k) eqn:E; cbn; rewrite E; [reflexivity | exact IH].
+Qed.
+
+Lemma dict_set_same' k ls m : lookup k m = Some ls -> py_dict_set k ls m = m.
+Proof.
+  intros H. pose proof (dict_set_same k m) as S. unfold py_dict_in, subscribers in S. rewrite H in S. apply S. reflexivity.
+Qed.
+
+Lemma sub_del_absent' k m : lookup k m = None -> sub_del k m = m.
+Proof. intros H. apply sub_del_absent. unfold py_dict_in. rewrite H. reflexivity. Qed.
+
+(* every test on the map is a test on [lookup et m]; after the case analysis on it: normalise, split the next test *)
+Ltac map_norm :=
+  repeat (cbn [negb andb orb py_optlist_is_none py_optlist_truth py_list_truth py_dict_truth length Nat.eqb Nat.leb Nat.ltb
+               pbind app] in *;
+          rewrite ?lookup_set, ?dict_set_set, ?sub_del_set in * ).
+Ltac map_leaf :=
+  match goal with
+  | L : lookup ?k ?m = Some ?ls |- _ => rewrite ?(dict_set_same' k ls m L)
+  | L : lookup ?k ?m = None |- _ => rewrite ?(sub_del_absent' k m L)
+  | _ => idtac
+  end; try reflexivity; try congruence.
+Ltac map_crush et m :=
+  unfold py_dict_in, subscribers in *; cbv zeta;
+  destruct (lookup et m) as [?ls |] eqn:?L; map_norm; try solve [map_leaf];
+  repeat (brk_step; map_norm; try solve [map_leaf]).
+
 Lemma pbind_ret r : pbind r (fun m => POk m) = r.
 Proof. destruct r; reflexivity. Qed.
 
@@ -163,24 +206,16 @@ Theorem gen_EventProducer_add_listener_eq : forall m a b,
   gen_EventProducer_add_listener m a b = model_add m a b.
 Proof.
   intros m [et | |] [l | |]; try reflexivity.
-  unfold gen_EventProducer_add_listener, model_add. cbn [py_arg_is_inst py_arg_id negb]. unf_py.
-  rewrite sub_add_spec. cbv zeta.
-  destruct (py_dict_in et m) eqn:I; cbn [negb].
-  - destruct (memb l (subscribers m et)); cbn [negb]; [| reflexivity].
-    rewrite (dict_set_same _ _ I). reflexivity.
-  - rewrite dict_item_set, dict_set_set, (dict_notin_subscribers _ _ I). reflexivity.
+  unfold gen_EventProducer_add_listener, model_add. cbn [py_arg_is_inst py_arg_is_none py_arg_id negb orb andb]. unf_py.
+  rewrite sub_add_spec. map_crush et m.
 Qed.
 
 Theorem gen_EventProducer_remove_listener_eq : forall m a b,
   gen_EventProducer_remove_listener m a b = model_remove m a b.
 Proof.
   intros m [et | |] [l | |]; try reflexivity.
-  unfold gen_EventProducer_remove_listener, model_remove. cbn [py_arg_is_inst py_arg_id negb]. unf_py.
-  rewrite sub_remove_spec. cbv zeta.
-  destruct (py_dict_in et m); [| reflexivity].
-  destruct (memb l (subscribers m et)); [| reflexivity].
-  rewrite dict_item_set.
-  destruct (remove_first l (subscribers m et)); cbn; [rewrite sub_del_set |]; reflexivity.
+  unfold gen_EventProducer_remove_listener, model_remove. cbn [py_arg_is_inst py_arg_is_none py_arg_id negb orb andb]. unf_py.
+  rewrite sub_remove_spec. map_crush et m.
 Qed.
 
 Theorem gen_EventProducer_remove_all_listeners_eq : forall m a b,
@@ -188,11 +223,13 @@ Theorem gen_EventProducer_remove_all_listeners_eq : forall m a b,
 Proof.
   intros m [et | |] [l | |]; try reflexivity;
     unfold gen_EventProducer_remove_all_listeners, model_remove_all;
-    cbn [py_arg_is_inst py_arg_is_none py_arg_id negb orb]; unf_py; cbv zeta.
-  - rewrite pbind_ret, gen_EventProducer_remove_listener_eq. reflexivity.
-  - destruct (py_dict_in et m) eqn:I; [reflexivity | rewrite (sub_del_absent _ _ I); reflexivity].
-  - rewrite pbind_ret. unfold sub_remove_everywhere. apply for_mut_fold.
-    intros m' et. rewrite pbind_ret, gen_EventProducer_remove_listener_eq. reflexivity.
+    cbn [py_arg_is_inst py_arg_is_none py_arg_id negb orb andb]; unf_py; cbv zeta;
+    rewrite ?pbind_ret, ?gen_EventProducer_remove_listener_eq; try reflexivity.
+  - (* the event type given, the listener left at None: the entry goes *)
+    map_crush et m.
+  - (* the listener given, the event type left at None: removed under every key of a snapshot of the keys *)
+    unfold sub_remove_everywhere. apply for_mut_fold.
+    intros m' et. rewrite ?pbind_ret, gen_EventProducer_remove_listener_eq. reflexivity.
 Qed.
 
 Theorem gen_EventProducer_has_listeners_eq : forall m,
@@ -250,32 +287,34 @@ Proof.
   apply G. intros k t H. exact H.
 Qed.
 
+Ltac ev_norm :=
+  cbn [negb andb orb py_arg_is_inst py_arg_is_none py_arg_id py_optmd_is_none py_optmd_truth py_optmd_items md_wf] in *.
+
 Theorem gen_Event___init___eq : forall E, env_wf E -> forall a c chk,
   gen_Event___init__ E a c chk = make_event E a c chk.
 Proof.
   intros E WF [et | |] c chk; try reflexivity.
-  unfold gen_Event___init__, make_event, validate. cbn [py_arg_is_inst py_arg_id negb].
-  specialize (WF et). destruct (md_of E et) as [m |]; [| reflexivity].
-  cbn [py_optmd_is_none py_optmd_items negb md_wf] in *.
-  unfold py_content_is_dict, py_content_items. destruct (c_shape c) as [items | t]; [| reflexivity].
-  cbn [negb]. destruct chk; [| reflexivity].
-  destruct (Nat.eqb (length m) (length items)); cbn [negb]; [| reflexivity].
-  rewrite (check_loop m items _ WF).
-  - destruct (check_keys m items); reflexivity.
-  - intros k. unfold key_verdict, py_items_get, py_optval_is_none, py_optval_isinstance.
+  unfold gen_Event___init__, make_event, validate. ev_norm.
+  specialize (WF et). destruct (md_of E et) as [m |]; ev_norm; [| try reflexivity; destruct chk; reflexivity].
+  unfold py_content_is_dict, py_content_items.
+  destruct (c_shape c) as [items | t]; ev_norm; [| destruct m; try reflexivity; destruct chk; reflexivity].
+  destruct chk; ev_norm; [| destruct m; reflexivity].
+  rewrite ?(Nat.eqb_sym (length items) (length m)).
+  rewrite ?(check_loop m items _ WF).
+  - destruct (Nat.eqb (length m) (length items)); ev_norm; reflexivity.
+  - (* one round of the loop says what the model's check_keys says for that key *)
+    intros k. unfold key_verdict, py_items_get, py_optval_is_none, py_optval_isinstance.
     destruct (dict_get k items) as [v |]; [| reflexivity].
     destruct (is_none v); [reflexivity |]. destruct (isinstance v (py_md_item k m)); reflexivity.
 Qed.
 
-Lemma ts_isinstance_ok ts : py_ts_isinstance ts [TInt; TFloat] = ts_ok ts.
-Proof. unfold py_ts_isinstance, ts_ok. cbn [existsb]. rewrite orb_false_r. reflexivity. Qed.
-
 Theorem gen_TimedEvent___init___eq : forall E, env_wf E -> forall ts a c chk,
   gen_TimedEvent___init__ E ts a c chk = make_timed E ts a c chk.
 Proof.
-  intros E WF ts a c chk. unfold gen_TimedEvent___init__, make_timed.
-  rewrite ts_isinstance_ok, (gen_Event___init___eq E WF).
-  destruct (ts_ok ts); cbn [negb]; [| reflexivity]. destruct (make_event E a c chk); reflexivity.
+  intros E WF ts a c chk. unfold gen_TimedEvent___init__, make_timed, py_ts_isinstance, ts_ok.
+  rewrite ?(gen_Event___init___eq E WF). cbn [existsb].
+  destruct (subty (ts_ty ts) TInt), (subty (ts_ty ts) TFloat); cbn [negb orb andb]; try reflexivity;
+    destruct (make_event E a c chk); reflexivity.
 Qed.
 
 (* ====================================================================== *)
@@ -343,10 +382,11 @@ Proof.
   cbn [py_name_is_str py_name_id negb]. cbv zeta.
   destruct (registered reg (site, n)); [reflexivity |].
   destruct md as [d |]; [| reflexivity].
-  cbn [py_rawmd_is_none py_rawmd_items py_rawmd_decode negb rawmd_wf] in *.
-  rewrite (decl_loop d _ WF).
-  - destruct (check_decl d) as [e | m] eqn:C; [reflexivity |]. rewrite (decl_decode d m C). reflexivity.
-  - intros [k |]; cbn [decl_verdict py_mdkey_is_str py_mdkey_id negb]; [| reflexivity].
+  cbn [py_rawmd_is_none py_rawmd_truth py_rawmd_items py_rawmd_decode negb rawmd_wf] in *.
+  rewrite ?(decl_loop d _ WF).
+  - destruct (check_decl d) as [e | m] eqn:C; [| rewrite (decl_decode d m C)]; destruct d; cbn in *; try discriminate; reflexivity.
+  - (* one round of the loop says what the model's check_decl says for that entry *)
+    intros [k |]; cbn [decl_verdict py_mdkey_is_str py_mdkey_id negb]; [| reflexivity].
     destruct (py_rawmd_item k d); reflexivity.
 Qed.
 
@@ -378,32 +418,30 @@ Lemma fire_invocation_is_fire_ev step s p ev (body : nat -> state -> res) :
   py_fire_invocation s p ev body = fire_ev step s p ev.
 Proof. intros H. unfold py_fire_invocation, fire_ev. cbv zeta. rewrite H; reflexivity. Qed.
 
-Lemma snapshot_body step p ev i s0 s :
-  st_subs s0 = st_subs s ->
-  (if negb (py_dict_in (ev_type ev) (subs_of s0 p)) then Done s0 []
-   else bind_res (py_for_notify step i ev s0 (subscribers (subs_of s0 p) (ev_type ev))) (fun s1 => Done s1 []))
-  = deliver_all step i ev s0 (subscribers (subs_of s p) (ev_type ev)).
-Proof.
-  intros H. unfold subs_of. rewrite H. destruct (py_dict_in _ _) eqn:I; cbn [negb].
-  - rewrite bind_res_done. reflexivity.
-  - rewrite (dict_notin_subscribers _ _ I). reflexivity.
-Qed.
+(* the body of fire_event / fire_timed_event after the bookkeeping: whichever way the source asks whether there are
+   subscribers (key in map, get() is None, empty list), it comes to delivering to the stored list as it is now *)
+Ltac fire_body :=
+  match goal with H : st_subs _ = st_subs _ |- _ => unfold subs_of; rewrite H end;
+  unfold py_for_notify, py_dict_in, subscribers;
+  match goal with |- context [lookup ?k ?m] => destruct (lookup k m) as [[| ?x ?r] |] end;
+  cbn [negb andb orb py_optlist_is_none py_optlist_truth py_list_truth length Nat.eqb Nat.ltb Nat.leb];
+  rewrite ?bind_res_done; reflexivity.
 
 Theorem gen_EventProducer_fire_event_eq : forall step s p oe,
   gen_EventProducer_fire_event step s p oe = model_fire_event step s p oe.
 Proof.
   intros step s p [ev |]; [| reflexivity].
-  unfold gen_EventProducer_fire_event, model_fire_event. cbn [py_is_event py_event negb]. unf_py.
-  apply fire_invocation_is_fire_ev. intros i s0 H. apply snapshot_body. exact H.
+  unfold gen_EventProducer_fire_event, model_fire_event. cbn [py_is_event py_is_timed_event py_event negb]. unf_py.
+  apply fire_invocation_is_fire_ev. intros i s0 H. fire_body.
 Qed.
 
 Theorem gen_EventProducer_fire_timed_event_eq : forall step s p oe,
   gen_EventProducer_fire_timed_event step s p oe = model_fire_timed_event step s p oe.
 Proof.
   intros step s p [ev |]; [| reflexivity].
-  unfold gen_EventProducer_fire_timed_event, model_fire_timed_event. cbn [py_is_timed_event py_event]. unf_py.
+  unfold gen_EventProducer_fire_timed_event, model_fire_timed_event. cbn [py_is_event py_is_timed_event py_event]. unf_py.
   destruct (ev_time ev); cbn [negb]; [| reflexivity].
-  apply fire_invocation_is_fire_ev. intros i s0 H. apply snapshot_body. exact H.
+  apply fire_invocation_is_fire_ev. intros i s0 H. fire_body.
 Qed.
 
 Theorem gen_EventProducer_fire_eq : forall E, env_wf E -> forall step s p a c chk,
@@ -502,12 +540,11 @@ Proof. unfold on_prod, subs_of. rewrite upd_prod_const. reflexivity. Qed.
 
 Theorem gen_pure_step_eq : forall s o, gen_pure_step s o = pure_step s o.
 Proof.
-  intros s o. destruct o as [p a b | p a b | p a b | p | | | | |]; try reflexivity; cbn [gen_pure_step].
-  - rewrite gen_EventProducer_add_listener_eq. destruct a, b; cbn; try reflexivity. rewrite <- on_prod_const. reflexivity.
-  - rewrite gen_EventProducer_remove_listener_eq. destruct a, b; cbn; try reflexivity. rewrite <- on_prod_const. reflexivity.
-  - rewrite gen_EventProducer_remove_all_listeners_eq.
+  intros s o. destruct o as [p a b | p a b | p a b | p | | | | |]; cbn [gen_pure_step pure_step];
+    rewrite ?gen_EventProducer_add_listener_eq, ?gen_EventProducer_remove_listener_eq,
+            ?gen_EventProducer_remove_all_listeners_eq, ?gen_EventProducer_has_listeners_eq;
+    try reflexivity;
     destruct a, b; cbn; try reflexivity; rewrite <- on_prod_const; reflexivity.
-  - rewrite gen_EventProducer_has_listeners_eq. reflexivity.
 Qed.
 
 (* the model depends on the listener-operation interpreter only through its values *)
